@@ -288,6 +288,8 @@ def render_def(k, it, meta, cfg):
     conv = ['let e = val(j);', 'let a = didx(%s::from(&e));' % dname]
     if intodisc:
         conv.append('let b = didx(strum::IntoDiscriminant::discriminant(&e));')      # (a path call: the user's enum may have an inherent `discriminant` of its own)
+        # .. and through a TRAIT OBJECT (IntoDiscriminant is dyn compatible on the unchanged tree: `&dyn IntoDiscriminant<Discriminant = D>`), seed C09_r17
+        conv.append('let b = { let dy: &dyn strum::IntoDiscriminant<Discriminant = %s> = &e; let b2 = didx(dy.discriminant()); if b2 == b { b } else { usize::MAX } };' % dname)
     else:
         conv.append('let b = a;')
     conv.append('let ev = eval(&e);')
